@@ -54,8 +54,9 @@ def run_check(prop, tier):
     kernel.import_library()   # pristine orchestrator: import, then hands off
     jobs = wl.jobs_for(tier, seed)
     timeout = 900 if tier == "quick" else 6 * 3600
+    findings = kernel.load_known_findings(prop)
     agg = kernel.run_batch(
-        wl, jobs, workers, timeout,
+        wl, jobs, workers, timeout, findings=findings,
         stop_on_violation=bool(os.environ.get("VERIF_STOP_ON_VIOLATION")))
     if agg.harness_errors:
         for e in agg.harness_errors[:5]:
@@ -63,20 +64,12 @@ def run_check(prop, tier):
         print("HARNESS-ERROR: %d run(s) failed in the machinery" %
               len(agg.harness_errors))
         return 2
-    findings = kernel.load_known_findings(prop)
-    unknown = []
-    hit = {}
-    for v in agg.violations:
-        for i, f in enumerate(findings):
-            if kernel.matches_finding(v, f):
-                hit[i] = hit.get(i, 0) + 1
-                break
-        else:
-            unknown.append(v)
+    unknown = agg.violations
     for i, f in enumerate(findings):
-        print("KNOWN-FINDING: property=%s %s%s" % (
+        print("KNOWN-FINDING: property=%s %s [%s]" % (
             prop, f["what"],
-            "" if hit.get(i) else " [not re-observed in this run]"))
+            "observed %d time(s) in this run" % agg.known_hits[i]
+            if agg.known_hits.get(i) else "not re-observed in this run"))
     status = 0
     replay_paths = []
     if unknown:
@@ -108,12 +101,12 @@ def run_check(prop, tier):
             print("VIOLATION property=%s replay=%s" % (prop, path))
     wall = kernel._real_monotonic() - t0
     if not os.environ.get("VERIF_NO_EVIDENCE"):
-        write_evidence(prop, wl, tier, seed, agg, wall, len(unknown),
+        write_evidence(prop, wl, tier, seed, agg, wall, agg.n_unknown,
                        workers, replay_paths, len(jobs))
     print("%s: %d runs, %d checked operations, %d violation(s) "
           "(%d known), %.1fs" % (
               prop, agg.runs, agg.counters.get("ops", 0),
-              agg.n_violations, agg.n_violations - len(unknown), wall))
+              agg.n_violations, agg.n_violations - agg.n_unknown, wall))
     return status
 
 
